@@ -129,6 +129,8 @@ def program_for(bp, decl, seed, horizon=HORIZON, with_ic=None, region_mode='rand
             prog.append({'op': 'AddVariable', 'sector': ref(s), 'name': 'T', 'desc': 'taxes received', 'eqn': '0.'})
         else:
             prog.append({'op': 'Sector', 'country': d['cc'], 'kind': k, 'code': d['code'], 'args': a})
+        if d.get('taxable'):
+            prog.append({'op': 'SetAttr', 'sector': ref(s), 'attr': 'IsTaxable', 'value': True})
         declared.add(s)
         n_declared += 1
         for what in queries.get(n_declared, []):
@@ -163,7 +165,14 @@ def program_for(bp, decl, seed, horizon=HORIZON, with_ic=None, region_mode='rand
             # placeholder embedded in a supplier allocation rule (as the REG builders do)
             eqn = '%0.2f*{%s:DEM_%s}' % (_dec(rnd, 0.05, 0.3), ref(r['mkt']), secs[r['mkt'] - 1]['code'])
         prog.append({'op': 'AddSupplier', 'market': ref(r['mkt']), 'supplier': ref(r['sup']), 'eqn': eqn})
+    cur_of = {c['code']: c['cur'] for c in bp['countries']}
+    xrnd = random.Random('%s|%s|crossrates' % (bp['name'], seed))
     for f in bp['flows']:
+        ca, cb = cur_of[secs[f['src'] - 1]['cc']], cur_of[secs[f['dst'] - 1]['cc']]
+        if ca != cb and bp['external'] == 'first' and xrnd.random() < 0.6:
+            # the user asks for the cross rate of the pair while still building the model (before full codes exist)
+            pair = (ca, cb) if xrnd.random() < 0.7 else (cb, ca)
+            prog.append({'op': 'CrossRate', 'local': pair[0], 'foreign': pair[1]})
         prog.append({'op': 'RegisterCashFlow', 'src': ref(f['src']), 'dst': ref(f['dst']), 'var': f['var'],
                      'inc_src': f['incs'], 'inc_dst': f['incd']})
     L = horizon + 2
